@@ -74,11 +74,11 @@ _RLINE = re.compile(r'^Message: R\|(\d+)\|([^|]*)\|([^|]*)\|([^|\n]*)$', re.M)
 
 def _ref_world(world: dict) -> R.World:
     subv = None
-    if world['sub'] and world['pre'] != 'override_sub':
-        subv = G.SUB_VERSIONS[world['pver']]
-    return R.World(system=world['system'], wrap_mode=world['wrap_mode'], fff=world['fff'],
+    if world['sub'] and world['pre'] != 'override_sub' and not world.get('sub_fails'):
+        subv = G.SUB_VERSIONS[world['pver']]     # a subproject that fails to configure provides nothing
+    return R.World(system=G.system_of(world), wrap_mode=world['wrap_mode'], fff=world['fff'],
                    provide=world['provide'], sub_on_disk=not world.get('sub_download'), sub_version=subv,
-                   sub_overrides=bool(world.get('sub_overrides')), main_dl=world.get('main_dl', 'shared'),
+                   sub_overrides=bool(world.get('sub_overrides')) and not world.get('sub_fails'), main_dl=world.get('main_dl', 'shared'),
                    sub_dl_how=world.get('sub_dl_how', 'same'), sub_dl_value=world.get('sub_dl_value'))
 
 
@@ -91,6 +91,12 @@ def _ref_state(world: dict) -> R.State:
         return R.State(override=('override', G.OVR_VERSIONS[world['pver']]), override_slots=R.slots(R.pre_dl(w)),
                        configured=True, sub_dl=R.pre_dl(w))
     if pre == 'configured':
+        return R.State(configured=True, sub_dl=R.pre_dl(w))
+    if pre == 'failed_sub' and not world.get('sub_fails'):
+        # control: subproject('sub', required: false) that does configure
+        if world.get('sub_overrides'):
+            return R.State(override=('sub', G.SUB_VERSIONS[world['pver']]), override_slots=R.slots(R.pre_dl(w)),
+                           configured=True, sub_dl=R.pre_dl(w))
         return R.State(configured=True, sub_dl=R.pre_dl(w))
     return R.State()
 
@@ -129,6 +135,10 @@ def _policy_mechanism(world: dict, lk: dict, allowed: T.Set[tuple], obs: tuple, 
         flags.append('static-' + str(lk['static']).lower())
     if world.get('sub_dl_how', 'same') != 'same':
         flags.append('sub-default_library-via-' + world['sub_dl_how'])
+    if {a[0] for a in allowed} == {obs[0]}:
+        # right provider, wrong version: e.g. a stale cached system dependency after the search path changed
+        head = f'policy:wrong-{obs[0]}-version' + ('-after-reconfigure' if world.get('reconfigured_from') else '')
+        return head + (':' + ','.join(flags) if flags else '')
     return f'policy:expected-{exp}-got-{obs[0]}' + (':' + ','.join(flags) if flags else '')
 
 
@@ -165,11 +175,15 @@ def run_policy_world(world: dict) -> dict:
         p2 = world.get('phase2')
         if p2 and r.rc == 0:
             world2 = dict(world, wrap_mode=p2['wrap_mode'], fff=p2['fff'], phase2=None, reconfigured_from=
-                          {'wrap_mode': world['wrap_mode'], 'fff': world['fff']})
+                          {'wrap_mode': world['wrap_mode'], 'fff': world['fff'], 'pcpath': world.get('pcpath')})
+            if 'pcpath' in p2:
+                world2['pcpath'] = p2['pcpath']
             if world.get('sub_download'):
                 world2['sub_download'] = not os.path.isdir(os.path.join(root, 'src', 'subprojects', G.SUB))
             args2 = ['-Dwrap_mode=' + p2['wrap_mode'],
                      '-Dforce_fallback_for=' + {'none': '', 'dep': G.DEP, 'sub': G.SUB}[p2['fff']]]
+            if 'pcpath' in p2:
+                args2.append(G.pcpath_arg(p2['pcpath'], root))
             r2 = runner.meson(['setup', '--reconfigure', bdir] + args2, cwd=os.path.join(root, 'src'),
                               env=env, monitors=[M.policy_monitor], timeout=90)
             if r2.timed_out:
@@ -178,6 +192,8 @@ def run_policy_world(world: dict) -> dict:
             c('A:reconfigurations')
             answers2 = _judge_policy_run(world2, r2, out, c, 2, witness_world=world)
             out['cov'] += ['reconf:' + world['wrap_mode'] + '->' + p2['wrap_mode']] + ['ans=' + a[0] for a in answers2]
+            if 'pcpath' in p2:
+                out['cov'].append('reconf-pkg_config_path:' + ','.join(world['pcpath']) + '->' + ','.join(p2['pcpath']))
             out['sample']['answers_after_reconfigure'] = [list(a) for a in answers2]
         return out
     finally:
@@ -193,17 +209,17 @@ def _judge_policy_run(world: dict, r: runner.Result, out: dict, c: T.Callable, p
         per: T.List[T.List[dict]] = []
         cur: T.Optional[T.List[dict]] = None
         sub_done_after: T.List[bool] = []
-        sub_done = world['pre'] in ('configured', 'override_sub')
+        sub_done = world['pre'] in ('configured', 'override_sub') or (world['pre'] == 'failed_sub' and not world.get('sub_fails'))
         for ev in r.records:
             c('monitor:' + ev['ev'])
-            if ev['ev'] == 'lookup-begin' and ev['depth'] == 1:
-                cur = []
+            if ev['ev'] == 'lookup-begin' and ev['depth'] == 1 and ev.get('subproject') == '' and G.DEP in ev['names']:
+                cur = []            # (a subproject's own top-level lookups of other names are not ours)
                 per.append(cur)
             if cur is not None:
                 cur.append(ev)
             if ev['ev'] == 'do_subproject-end' and ev['name'] == G.SUB and ev['found']:
                 sub_done = True
-            if ev['ev'] == 'lookup-end' and ev['depth'] == 1:
+            if ev['ev'] == 'lookup-end' and ev['depth'] == 1 and cur is not None:
                 cur = None
                 sub_done_after.append(sub_done)
             if ev.get('online'):
@@ -268,7 +284,8 @@ def _judge_policy_run(world: dict, r: runner.Result, out: dict, c: T.Callable, p
                         why = 'under-nofallback' if world['wrap_mode'] == 'nofallback' else 'without-available-fallback'
                         out['violations'].append((f'policy:subproject-configured-from-lookup-{why}', detail))
             after = sub_done_after[i - 1] if i - 1 < len(sub_done_after) else sub_done
-            sub_ovr = ('sub', G.SUB_VERSIONS[world['pver']]) if world.get('sub_overrides') else None
+            sub_ovr = ('sub', G.SUB_VERSIONS[world['pver']]) if (world.get('sub_overrides') and
+                                                                 not world.get('sub_fails')) else None
             R.advance(w, st, rl, obs, after, sub_ovr)
             if obs == ('error',):
                 break
@@ -279,6 +296,19 @@ def _judge_policy_run(world: dict, r: runner.Result, out: dict, c: T.Callable, p
             out['violations'].append(('policy:configuration-failed-after-answers',
                                       {**witness_base, 'rc': r.rc, 'answers': [list(a) for a in answers],
                                        'out_tail': r.out[-1500:], 'err_tail': r.err[-800:]}))
+        if world.get('side_overrides') and ended:
+            # what else the subproject registered (another dependency name, a program) is visible iff the subproject
+            # was configured successfully: a failed (disabled) subproject provides nothing
+            side = dict(re.findall(r'^Message: X\|(dep|prog)\|(true|false)$', r.out, re.M))
+            want = 'true' if (sub_done and not world.get('sub_fails')) else 'false'
+            for what in ('dep', 'prog'):
+                if what in side:
+                    c('rule:side-override-visible-iff-subproject-configured')
+                    if side[what] != want:
+                        kind = 'failed-subproject-provides-' if world.get('sub_fails') else 'configured-subproject-override-lost-'
+                        out['violations'].append(('policy:' + kind + ('dependency' if what == 'dep' else 'program'),
+                                                  {**witness_base, 'observed': side, 'expected': want, 'rc': r.rc,
+                                                   'out_tail': r.out[-1500:]}))
         if r.traceback:
             c('A:traceback')
         return answers
@@ -684,9 +714,11 @@ def main() -> int:
     need = sum(len(G.A_FACTORS[a]) * len(G.A_FACTORS[b]) for i, a in enumerate(names) for b in names[i + 1:])
     got = len({(a, c[a], b, c[b]) for c in cells for i, a in enumerate(names) for b in names[i + 1:]})
     chk.notes['pairwise_factor_value_pairs'] = {'needed': need, 'covered_by_planned_cells': got}
-    for wld in G.a_sequence_worlds(rng, 150 if quick else 2500):
+    for wld in G.a_sequence_worlds(rng, 120 if quick else 2500):
         items.append(('A', wld))
-    for wld in G.a_reconfigure_worlds(rng, 70 if quick else 700):
+    for wld in G.a_reconfigure_worlds(rng, 90 if quick else 900):
+        items.append(('A', wld))
+    for wld in G.a_failing_sub_worlds(rng, 60 if quick else 800):
         items.append(('A', wld))
     n_a = len(items)
     # ---- Part B -------------------------------------------------------------------------------------
@@ -742,7 +774,7 @@ def main() -> int:
             chk.sample(res['sample'])
 
     for name, minimum in (('monitor:lookup-begin', 100), ('monitor:fed', 50), ('monitor:do_subproject', 50),
-                          ('monitor:candidates', 100), ('rule:documented-answer', 100), ('rule:repeat-same-answer', 100), ('A:reconfigurations', 20),
+                          ('monitor:candidates', 100), ('rule:documented-answer', 100), ('rule:repeat-same-answer', 100), ('A:reconfigurations', 20), ('rule:side-override-visible-iff-subproject-configured', 20),
                           ('rule:forced-no-system', 20), ('rule:override-no-system', 20), ('rule:no-subproject-from-lookup', 20),
                           ('monitor:unpack', 50), ('monitor:check_hash', 20), ('monitor:urlopen', 50),
                           ('monitor:get_data', 50), ('monitor:copy_tree', 3),
